@@ -181,11 +181,11 @@ Section Parse.
     if is_empty acc then inl (Some text, acc)
     else if has_byte 123 text then inr EOpenTwice
     else
-      let acc2 := acc ++ trim_space text in
+      let acc2 := acc ++ ftrim_space text in
       match index_byte acc2 125 with
       | Some ci =>
           if has_byte 125 (skipn (S ci) acc2) then inr EUnexpectedClose
-          else if (Nat.ltb 0 ci) && has_suffix (firstn ci acc2) [44] then inr ECloseAfterComma
+          else if (Nat.ltb 0 ci) && fhas_suffix (firstn ci acc2) [44] then inr ECloseAfterComma
           else inl (Some acc2, [])
       | None => inl (None, acc2)
       end.
@@ -193,7 +193,7 @@ Section Parse.
   (* third block: key, value, store *)
   Definition apply_field (st : pstate) (text : bytes) : pstate + perr :=
     let '(ok, rest) := match_key text in
-    let v := trim_space rest in
+    let v := ftrim_space rest in
     if is_empty v then inl st
     else match ok with
          | None => inr EBadLine
@@ -339,7 +339,7 @@ Definition braces_ok (c : bytes) : bool :=
       match split_braces c with
       | Some (pre, body, post) =>
           negb (has_byte 125 pre) && negb (has_byte 123 body) && negb (has_byte 123 post)
-          && negb (has_byte 125 post) && negb (has_suffix body [44])
+          && negb (has_byte 125 post) && negb (fhas_suffix body [44])
       | None => false
       end
   end.
